@@ -346,7 +346,9 @@ func (w *worker) runClaim(i int, name string) {
 		if ev.Call == 0 {
 			lastServedReady = nil
 		}
-		if ev.Verb == "get" && ev.Key == xk && ev.After != nil {
+		// the reconcile observes the XR through its read AND through the object the server returns
+		// for its own apply/patch/update of the XR (the SSA syncer continues with that response)
+		if ev.Key == xk && ev.After != nil && ev.Err == "" && (ev.Verb == "get" || ev.IsWrite()) {
 			rc := condOf(ev.After, "Ready")
 			b := rc != nil && rc["status"] == "True"
 			lastServedReady = &b
